@@ -106,7 +106,7 @@ var ops = []*opDef{
 	bin("<", clsCmp, true, sII_B), bin("<=", clsCmp, false, sII_B), bin(">", clsCmp, false, sII_B), bin(">=", clsCmp, false, sII_B), bin("<=>", clsCmp, false, sII_I),
 	bin("==", clsEq, true, sII_B, sBB_B, sSS_B), bin("!=", clsEq, false, sII_B, sBB_B), bin("===", clsEq, false, sII_B, sBB_B), bin("!==", clsEq, false, sII_B, sBB_B),
 	bin("&", clsBitAnd, true, sII_I), bin("^", clsBitXor, true, sII_I), bin("|", clsBitOr, true, sII_I),
-	bin("&&", clsLand, true, sBB_B), bin("||", clsLor, true, sBB_B),
+	bin("&&", clsLand, true, sBB_B, sig{[]typ{tB, tI}, tB}), bin("||", clsLor, true, sBB_B, sig{[]typ{tB, tI}, tB}),
 	bin(".", clsConcat, true, sig{[]typ{tS, tS}, tS}, sig{[]typ{tS, tI}, tS}, sig{[]typ{tI, tS}, tS}),
 	bin("??", clsCoalesce, true, sig{[]typ{tN, tI}, tI}, sig{[]typ{tI, tI}, tI}, sig{[]typ{tN, tS}, tS}, sig{[]typ{tS, tS}, tS}, sig{[]typ{tN, tB}, tB}),
 	{sym: "?:", kind: kTernary, cls: clsTernary, core: true, sigs: []sig{{[]typ{tB, tI, tI}, tI}, {[]typ{tB, tS, tS}, tS}, {[]typ{tB, tB, tB}, tB}}},
@@ -115,6 +115,14 @@ var ops = []*opDef{
 	{sym: "+=", kind: kAssign, cls: clsAssign, core: true, sigs: []sig{{[]typ{tI}, tI}}},
 	{sym: "-=", kind: kAssign, cls: clsAssign, sigs: []sig{{[]typ{tI}, tI}}},
 	{sym: "*=", kind: kAssign, cls: clsAssign, sigs: []sig{{[]typ{tI}, tI}}},
+	{sym: "/=", kind: kAssign, cls: clsAssign, sigs: []sig{{[]typ{tI}, tI}}},
+	{sym: "%=", kind: kAssign, cls: clsAssign, sigs: []sig{{[]typ{tI}, tI}}},
+	{sym: "**=", kind: kAssign, cls: clsAssign, sigs: []sig{{[]typ{tI}, tI}}},
+	{sym: "<<=", kind: kAssign, cls: clsAssign, sigs: []sig{{[]typ{tI}, tI}}},
+	{sym: ">>=", kind: kAssign, cls: clsAssign, sigs: []sig{{[]typ{tI}, tI}}},
+	{sym: "&=", kind: kAssign, cls: clsAssign, sigs: []sig{{[]typ{tI}, tI}}},
+	{sym: "|=", kind: kAssign, cls: clsAssign, core: true, sigs: []sig{{[]typ{tI}, tI}}},
+	{sym: "^=", kind: kAssign, cls: clsAssign, sigs: []sig{{[]typ{tI}, tI}}},
 	{sym: ".=", kind: kAssign, cls: clsAssign, sigs: []sig{{[]typ{tS}, tS}}},
 	{sym: "??=", kind: kAssign, cls: clsAssign, sigs: []sig{{[]typ{tI}, tI}}},
 }
@@ -214,6 +222,17 @@ func needParens(parent *node, pos int, child *node) need {
 		return noParens
 	}
 	p, c := parent.op, child.op
+	// An assignment takes everything to its right as its value (its left side must be a variable),
+	// so `8 | $q <<= 2` is `8 | ($q <<= 2)`: as the LAST operand of an operator it needs no
+	// parentheses; an operand that ends in such an open assignment needs them whenever something
+	// follows it inside the parent.
+	last := len(parent.kids) - 1
+	if pos < last && openRight(child) && !(p.kind == kTernary && pos == 1) {
+		return parens
+	}
+	if c.kind == kAssign && pos == last && (p.kind == kBinary || p.kind == kTernary || p.kind == kElvis) {
+		return noParens
+	}
 	switch p.kind {
 	case kAssign:
 		return noParens // the right-hand side of the loosest, right-associative operator
@@ -267,6 +286,18 @@ func needParens(parent *node, pos int, child *node) need {
 		return noParens
 	}
 	return parens
+}
+
+// openRight: does the minimal printing of n end in an assignment that is not closed by a parenthesis?
+func openRight(n *node) bool {
+	if n.op == nil {
+		return false
+	}
+	if n.op.kind == kAssign {
+		return true
+	}
+	k := n.kids[len(n.kids)-1]
+	return k.op != nil && needParens(n, len(n.kids)-1, k) == noParens && openRight(k)
 }
 
 // ---- printing --------------------------------------------------------------------------------
